@@ -71,6 +71,8 @@ def check_hold(eng, run, fn, rule):
         bad += 1
         if kind == "suspend":
             run.finding(rule, fn, stmt, f"un-shielded suspension point while `{var}` holds received data that has not reached its owner: a cancellation/timeout here loses it")
+        elif kind == "raiser":
+            run.finding(rule, fn, stmt, f"a call that can raise runs while `{var}` holds received data that has not reached its owner: the data already taken from its source is discarded and the error is reported in its place")
         else:
             run.finding(rule, fn, stmt, f"`{var}` is re-bound/deleted while it still holds undelivered received data")
     suspended_vars = {v for _, k, vs in an.problems if k == "suspend" for v in vs.split(",")}
